@@ -77,7 +77,7 @@ R = {
 }
 
 def main():
-    now_file = sys.argv[1] if len(sys.argv) > 1 else None
+    now_file = sys.argv[1] if len(sys.argv) > 1 else ("/verif/seeded/round3_results.json" if os.path.exists("/verif/seeded/round3_results.json") else None)
     now = json.load(open(now_file)) if now_file else {}
     head = subprocess.check_output(["git", "-C", "/repo", "log", "--format=%h", "-1"]).decode().strip()
     for pid, rows in sorted(R.items()):
